@@ -42,6 +42,9 @@ known("C17","C17-v1-batchget-missing","the SDK v1 client does not implement Batc
 known("C17","C17-v1-sdk-input-validation","the v1 client runs the SDK's input.Validate() (table names shorter than 3 characters are rejected with InvalidParameter) while the v2 client accepts the same request: CreateTable(\"ab\") succeeds in v2 only",
  ["C17|INVALID:CreateTable(2-character name)|CreateTable|class|v1=InvalidParameter|v2=success@v1","C17|INVALID:CreateTable(empty name)|CreateTable|class|v1=InvalidParameter|v2=success@v1","C17|INVALID:Put(empty table name)|PutItem|class|v1=InvalidParameter|v2=ResourceNotFoundException@v1"],
  {"op":"CreateTable name 'ab' (h:S, PAY_PER_REQUEST): v1 InvalidParameter, v2 success"})
+known("C17","C17-v2-empty-container-as-null","the two clients disagree on empty binary values, lists, maps: the v2 client returns them as NULL (C10's finding C10-v2-empty-container-as-null, pinned by the v2 TestMapTypesToDynamo), the v1 client returns them unchanged. Attributed only when turning every empty container of the v1 answer into NULL yields exactly the v2 answer",
+ ["C17|after Put(value tree)|observe %s|explained-by-empty-container-returned-as-NULL@v1" % o for o in ("GetItem|item","Scan|items","Query|items")],
+ {"history":["CreateTable tab (h:S)","PutItem {h:k1, v:L[]}"],"op":"GetItem k1: v1 {v: L[]}, v2 {v: NULL}"})
 fixed("C06","C06-cross-type-comparison-panic","comparing values of different types no longer panics","'n = :s', 'n < :s' and every other comparison between values of different scalar types crashed with an interface-conversion panic")
 fixed("C06","C06-list-index-past-end-panic","a list position past the end","a condition on l[5] of a shorter list crashed with index out of range")
 fixed("C06","C06-attribute-exists-null","attribute_exists is true for an attribute of type NULL","attribute_exists was false (attribute_not_exists true) for an attribute holding NULL")
